@@ -419,7 +419,7 @@ TREE_MUTATIONS = ["unknown_tag", "ext_not_allowed", "ext_existing_term", "requir
                   "def_undeclared", "def_value_missing", "def_value_extra", "defexpand_altered", "duplicate_tag",
                   "duplicate_group", "taggroup_tag_at_top", "toplevel_group_nested", "definition_in_string",
                   "unique_twice", "empty_group", "onset_extra_group", "onset_no_def", "offset_with_group",
-                  "duration_two_groups", "ext_bad_char"]
+                  "duration_two_groups", "ext_bad_char", "toplevel_group_nested_twin"]
 TEXT_MUTATIONS = ["paren_extra_open", "paren_extra_close", "paren_removed", "paren_wrong_order", "double_comma",
                   "leading_comma", "trailing_comma", "comma_missing_before_group", "comma_missing_after_group",
                   "forbidden_char"]
@@ -509,7 +509,7 @@ def mutated(draw, ann, kinds=None, start=0):
             ok = bool(defs) and pl.has["onset"]
         elif k == "onset_no_def":
             ok = pl.has["onset"]
-        elif k == "duration_two_groups":
+        elif k in ("duration_two_groups", "toplevel_group_nested_twin"):
             ok = pl.has["duration"] and "topLevelTagGroup" in pl.special("Duration").attrs
         elif k == "paren_removed":
             ok = any(is_group(c) for c in tree) or depth_of(tree) > 0
@@ -674,6 +674,19 @@ def mutated(draw, ann, kinds=None, start=0):
     elif kind == "empty_group":
         _insert_somewhere(draw, tree, make_group([]))
         expect = "TAG_EMPTY"
+    elif kind == "toplevel_group_nested_twin":
+        # a legal top-level Duration group plus an identical copy nested inside another group (the copy is misplaced)
+        extra = [n for n in pl.plain if n.long not in used]
+        inner = make_tag(extra[0].short, tag_id(extra[0]), node=extra[0].long, kind="plain")
+        other = make_tag(extra[1].short, tag_id(extra[1]), node=extra[1].long, kind="plain")
+        num = draw(st.integers(1, 90))
+
+        def twin():
+            return make_group([make_tag(f"Duration/{num} s", f"duration/{num} s", kind="duration"),
+                               make_group([dict(inner)])], sealed=True)
+        tree.insert(draw(st.integers(0, len(tree))), twin())
+        tree.insert(draw(st.integers(0, len(tree))), make_group([other, twin()], sealed=True))
+        expect = "TAG_GROUP_ERROR"
     elif kind in ("onset_extra_group", "onset_no_def", "offset_with_group", "duration_two_groups"):
         extra = [n for n in pl.plain if n.long not in used]
         g1 = make_group([make_tag(extra[0].short, tag_id(extra[0]), node=extra[0].long, kind="plain")])
